@@ -412,7 +412,13 @@ def model_view(mr):
         out = model_view(mr[0])
         out["recv_after"] = tree(mr[1])
         return out
-    return {"res": tree(mr[0]), "dists": mr[1], "pathlen": mr[2], "tips": mr[3]}
+    return {"res": tree(mr[0]), "dists": mr[1], "pathlen": mr[2], "tips": mr[3], "splits": mr[4]}
+
+
+def model_splits(mv):
+    """Coq `splits` output (one side per split) -> the oracle's representation (set of unordered pairs of frozensets)"""
+    alltips = frozenset(mv["tips"])
+    return {frozenset([frozenset(c), alltips - frozenset(c)]) for c in mv["splits"]}
 
 
 def scaled(x, f):
@@ -808,6 +814,11 @@ def compare(rep, cases, impl, model, variant):
                 d = ("get_distances", mv["dists"], st["dists"])
             elif mv["tips"] != st.get("tips"):
                 d = ("tips", mv["tips"], st.get("tips"))
+            elif len(set(mv["tips"])) == len(mv["tips"]) and model_splits(mv) != oracle_splits(st["res"]):
+                # the specification's split set (Spec/TreeTopoSpec.splits, evaluated in Coq on the model's result)
+                # against the oracle's split computation on the tree the implementation returned
+                d = ("splits-spec", sorted(sorted(map(sorted, x)) for x in model_splits(mv)),
+                     sorted(sorted(map(sorted, x)) for x in oracle_splits(st["res"])))
             elif st.get("dists") is not None and None not in mv["dists"] and mv["pathlen"] != st["dists"] \
                     and all(x[1] is not None for x, dd, _ in all_nodes(st["res"]) if dd > 0):
                 d = ("pathlen-spec", mv["pathlen"], st["dists"])
@@ -903,8 +914,10 @@ def run(tier: str, seed: int) -> int:
         input_distribution=dict(blocks=dist, ops=opd, modelled_cases=len(idx), variants={k: variant.get(k) for k in ('unrooted', 'midpoint', 'json', 'labels')}),
         model_impl_disagreements=len(dis), spec_violations=nviol, disagreement_samples=dis[:3],
         partial=[
-            "unrooted topology among retained tips (split sets): checked by the oracle on every case, not a theorem (the theorems are "
-            "about tip sets and path lengths)",
+            "unrooted topology: theorems (same_topology / restricted_topology, split sets up to complement) for re-rooting, sorted, "
+            "repaired unrooted, prune, bifurcating (refinement), get_sub_tree(tipsonly), root_at_midpoint and chains; the specification's "
+            "executable split list is compared with the oracle's split computation on every result tree; topology under the newick/JSON "
+            "round trips follows from the identity theorems; get_sub_tree(tipsonly=False) topology is oracle-only",
             "newick round trip theorem is for underscore_unmunge=True; unmunge=False and the JSON round trip: model compared with the "
             "implementation and with the identity oracle only",
             "get_sub_tree theorems are for tipsonly=True; tipsonly=False by correspondence and oracle",
